@@ -2096,3 +2096,16 @@ M("C15-standard-layout-derefs-unknown-base", "C15", F_ST,
 M("C15-trivial-derefs-unknown-base", "C15", F_ST,
   "    if ((*di)._is_virtual || (base != nullptr && !base->is_trivial())) {", "    if ((*di)._is_virtual || !base->is_trivial()) {",
   expect="R15.25|CPPStructType::is_trivial|")
+
+# ---- R15.27 (F-C15z: self-referential instance substituted without end)
+F_IN = "src/cppparser/cppInstance.cxx"
+M("C15-instance-registered-after-descent", "C15", F_IN,
+  "  subst[this] = rep;\n\n  CPPDeclaration *new_type =", "  CPPDeclaration *new_type =",
+  expect="R15.27|CPPInstance::substitute_decl|")
+M("C15-instance-registered-after-type-only", "C15", F_IN,
+  "  subst[this] = rep;\n\n  CPPDeclaration *new_type =\n    _type->substitute_decl(subst, current_scope, global_scope);\n",
+  "  CPPDeclaration *new_type =\n    _type->substitute_decl(subst, current_scope, global_scope);\n  subst[this] = rep;\n",
+  expect="R15.27|CPPInstance::substitute_decl|_type->substitute_decl")
+M("C15-benign-instance-registered-by-insert", "C15", F_IN,
+  "  subst[this] = rep;\n\n  CPPDeclaration *new_type =", "  subst.insert(SubstDecl::value_type(this, rep));\n\n  CPPDeclaration *new_type =",
+  benign=True)
